@@ -135,6 +135,9 @@ struct ThreadLocalCache {
     thread_id: ThreadId,
     /// Current hot allocation area
     hot_area: Option<HotArea>,
+    /// Exhausted hot areas: blocks carved from them may still be live or sit in the
+    /// free lists, so they stay allocated for as long as the cache lives
+    retired_areas: Vec<HotArea>,
     /// Free lists for each size class
     free_lists: Vec<Vec<NonNull<u8>>>,
     /// Lazy synchronization counter
@@ -209,6 +212,7 @@ impl ThreadLocalCache {
         Self {
             thread_id: thread::current().id(),
             hot_area: None,
+            retired_areas: Vec::new(),
             free_lists: vec![Vec::new(); TLS_SIZE_CLASSES.len()],
             frag_inc: 0,
             global_pool,
@@ -285,7 +289,9 @@ impl ThreadLocalCache {
             Ok(mut hot_area) => {
                 // Try to allocate from new hot area
                 if let Some(ptr) = hot_area.try_allocate(size) {
-                    self.hot_area = Some(hot_area);
+                    if let Some(old) = self.hot_area.replace(hot_area) {
+                        self.retired_areas.push(old);
+                    }
                     
                     if let Some(stats) = &self.stats {
                         stats.arena_allocations.fetch_add(1, Ordering::Relaxed);
